@@ -23,20 +23,30 @@ def role_fn(pg, mm, nat):
     return None
 
 
+ARG_LABELS = ('depth/arg', 'depth/default', 'cycle/macro-through', 'chain/macro-args')
+
+
+def text_evalfn(st, items, file, strip, ign):
+    # function-like macros: the text-level reference expander of C05, with the depth threaded through every rescan
+    ppref.ref_eval(st, items, file, None, strip, ppref.text_expander, ign, st.include_paths)
+
+
 def families(args):
-    progs = ppfamily.depth_programs(args.tier, args.seed)
+    allp = ppfamily.depth_programs(args.tier, args.seed)
+    progs = [p for p in allp if not p.label.startswith(ARG_LABELS)]
     fam = ppprop.Family('depths-and-cycles', progs, mk_case, ('tokens',), max_paths=600, role_fn=role_fn,
                         quirk_roles=[(('macro_expansion_resets_include_depth',), 'F6:macro-expansion-resets-include-depth', ('tokens',))])
-    return [fam]
+    fam2 = ppprop.Family('depths-through-arguments', [p for p in allp if p.label.startswith(ARG_LABELS)], mk_case, ('tokens',), evalfn=text_evalfn, max_paths=600)
+    return [fam, fam2]
 
 
 def main():
     args = proprun.parse_args(PID)
     return ppprop.run(PID, 'model_checking', families, args,
-                      rule='depth programs: resolve_depth / include_depth are unbounded z3 Ints (0..2^64-1) on entry; for every recursion edge (usage->expansion, include->file, '
+                      rule='depth programs: resolve_depth / include_depth are unbounded z3 Ints (0..2^64-1) on entry; for every recursion edge (usage->expansion, usage handed on through an actual argument or a default value, include->file, '
                            'macro-named include, include inside an expansion) the real MIR and the reference (limit 64, one Include wrapper per include level) must agree for every '
                            'depth value; cycles and 64/65-deep chains are run with concrete start depth 0',
-                      bounds={'tier': args.tier, 'depths': 'symbolic, 0..2^62 (the counters are started at 0 by every public wrapper; values next to usize::MAX are outside the claim)', 'chain length in symbolic cases': '<= 3', 'concrete chains': '64 and 65'},
+                      bounds={'tier': args.tier, 'depths': 'symbolic, 0..2^62 (the counters are started at 0 by every public wrapper; values next to usize::MAX are outside the claim)', 'chain length in symbolic cases': '<= 3', 'concrete chains': '64 and 65 (macro texts, includes, usages nested through actual arguments)'},
                       outside=['cycle shapes outside the family (the step obligations cover every recursion edge of preprocess.rs)'],
                       assumptions=ppprop.STD_ASSUMPTIONS, sample_sym='resolve_depth, include_depth (Int), def_A')
 
